@@ -495,7 +495,7 @@ void parallel_for_adaptiveWaitDispatch(
       parRange.start,
       parRange.end,
       static_cast<uint32_t>(numStripeWorkers),
-      static_cast<IntegerT>(adaptiveChunkSize),
+      static_cast<typename detail::StripeCursor<IntegerT>::WideT>(adaptiveChunkSize),
       granularity);
   auto stateBegin = states.begin();
   auto worker = [&stripeState, &f](auto& userState, uint32_t myIdx) {
